@@ -1,0 +1,29 @@
+//go:build verif
+
+package dhcp
+
+// Second hook file of the C16 runtime monitor: a read-only snapshot of the
+// pending-offer table (addresses reserved by DISCOVER that have not become a
+// lease yet). Nothing here has behaviour of its own.
+
+// VerifC16Offer is a read-only copy of one pending offer.
+type VerifC16Offer struct {
+	MAC       string
+	PoolID    uint32
+	ExpiresNS int64
+}
+
+// VerifC16Offers returns a copy of the pending-offer table (MAC -> offer).
+func (s *Server) VerifC16Offers() map[string]VerifC16Offer {
+	s.offersMu.Lock()
+	defer s.offersMu.Unlock()
+	out := make(map[string]VerifC16Offer, len(s.offers))
+	for mac, o := range s.offers {
+		if o == nil {
+			out[mac] = VerifC16Offer{MAC: mac}
+			continue
+		}
+		out[mac] = VerifC16Offer{MAC: mac, PoolID: o.poolID, ExpiresNS: o.expiresAt.UnixNano()}
+	}
+	return out
+}
